@@ -160,6 +160,9 @@ def findOpen : List Desc → Kind → Nat → Option Nat
 
 inductive OpKind where
   | open | socket | pipe | accept | maccept | toDirect | toFd | close
+  /-- `accept::<A>()` with an address type whose `SocketAddress::init` panics (a user
+  implementation of the public trait, or the crate's own `debug_assert!` on a family mismatch) -/
+  | acceptp
   deriving Repr, DecidableEq
 
 def OpKind.opcode : OpKind → String
@@ -167,6 +170,7 @@ def OpKind.opcode : OpKind → String
   | .socket => "SOCKET"
   | .pipe => "PIPE"
   | .accept => "ACCEPT"
+  | .acceptp => "ACCEPT"
   | .maccept => "ACCEPT"
   | .toDirect => "FILES_UPDATE"
   | .toFd => "FIXED_FD_INSTALL"
@@ -174,7 +178,7 @@ def OpKind.opcode : OpKind → String
 
 /-- The operation borrows an `AsyncFd` (`fd: &'fd AsyncFd` in the future). -/
 def OpKind.borrows : OpKind → Bool
-  | .accept | .maccept | .toDirect | .toFd => true
+  | .accept | .acceptp | .maccept | .toDirect | .toFd => true
   | _ => false
 
 /-- One operation: the state machine of `Model/Op.lean` plus what the
@@ -258,7 +262,7 @@ to_file_descriptor — always regular (fd.rs:165,177). -/
 def Sys.issueKind (s : Sys) (o : FOp) : Kind :=
   match o.kind with
   | .open | .socket | .pipe => o.req
-  | .accept | .maccept =>
+  | .accept | .acceptp | .maccept =>
     match s.handles[o.on]? with
     | some h => kindOf h.word
     | none => .file
@@ -421,7 +425,7 @@ def Sys.newOp (s : Sys) (kind : OpKind) (req : Kind) (a : Nat) : Sys × List Str
   match kind with
   | .open | .socket | .pipe =>
     ({ s with ops := s.ops ++ [{ op := { multi := false }, kind := kind, req := req }] }, ["ok"])
-  | .accept | .maccept | .toDirect | .toFd =>
+  | .accept | .acceptp | .maccept | .toDirect | .toFd =>
     match s.handles[a]? with
     | none => (s, ["bad-op"])
     | some h =>
@@ -475,7 +479,7 @@ no `fallback` of their own (net.rs:20-46, 706-790). Not so for the conversions (
 180-195: `Err(err)` for the kind of `AsyncFd` they may be called on), pipe (pipe.rs:48-63) and
 `CloseOp`, which the kernel model never answers with an errno other than EBADF. -/
 def OpKind.mapsEinval : OpKind → Bool
-  | .open | .socket | .accept | .maccept => true
+  | .open | .socket | .accept | .acceptp | .maccept => true
   | _ => false
 
 /-- How the error `e` of the result read by this poll reaches the caller. A multishot stream
@@ -519,13 +523,6 @@ def Sys.pollCore (s : Sys) (i : Nat) : Sys × List String :=
       | .readyErr e => (s1, s!"ready err {showErr o e}" :: lines)
       | .readyNone => (s1, "ready none" :: lines)
       | .panic => (s1, "panic" :: lines)
-
-/-- `Future::poll` / `poll_next` of operation `i`. A poll that would call `pipe2(2)` needs the
-environment's answer: it is the step `Sys.pollFb`. -/
-def Sys.poll (s : Sys) (i : Nat) : Sys × List String :=
-  match s.ops[i]? with
-  | none => (s, ["bad-op"])
-  | some o => if o.pipe2Due then (s, ["bad-op"]) else s.pollCore i
 
 /-- What the synchronous `pipe2(2)` answers (the environment's move inside the poll). -/
 inductive Fb where
@@ -602,6 +599,35 @@ def Sys.dropH (s : Sys) (a : Nat) : Sys × List String :=
       | .file => (s, [s!"sync-close {showKey t} {if ok then 0 else -9}"])
       | .direct => (s, [s!"sync-unreg {showKey t}"])
 
+/-- The poll of an `acceptp` future that reads a successful result: `AcceptOp::map_ok`
+(src/io_uring/net.rs:747-751) first wraps the descriptor — `AsyncFd::from_raw(fd, lfd.kind(),
+sq)` — and only then calls `A::init(addr, addr_len)`, which panics: the unwind drops the
+`AsyncFd` just built, i.e. the descriptor is closed like that of any dropped `AsyncFd`
+(through the ring, or synchronously when the queue is full). It is exactly the poll of an
+ordinary accept followed by the drop of the handle it returned. Every other outcome of the
+poll (pending, an error, a poll after completion) is that of an ordinary accept. -/
+def Sys.pollPanic (s : Sys) (i : Nat) : Sys × List String :=
+  match s.ops[i]? with
+  | none => (s, ["bad-op"])
+  | some o =>
+    match (o.op.poll i s.sqRoom).2.1 with
+    | .readyOk _ =>
+      let r := s.pollCore i
+      let d := r.1.dropH s.handles.length
+      (d.1, "ready panic" :: (r.2.drop 1 ++ d.2))
+    | _ => s.pollCore i
+
+/-- `Future::poll` / `poll_next` of operation `i`. A poll that would call `pipe2(2)` needs the
+environment's answer: it is the step `Sys.pollFb`. -/
+def Sys.poll (s : Sys) (i : Nat) : Sys × List String :=
+  match s.ops[i]? with
+  | none => (s, ["bad-op"])
+  | some o =>
+    if o.pipe2Due then (s, ["bad-op"])
+    else if o.kind = .acceptp then s.pollPanic i
+    else s.pollCore i
+
+
 /-! ### Steps and runs -/
 
 inductive Step where
@@ -657,6 +683,7 @@ def parseOpKind (t : String) : Option OpKind :=
   else if t == "socket" then some .socket
   else if t == "pipe" then some .pipe
   else if t == "accept" then some .accept
+  else if t == "acceptp" then some .acceptp
   else if t == "maccept" then some .maccept
   else if t == "todirect" then some .toDirect
   else if t == "tofd" then some .toFd
